@@ -5,7 +5,7 @@
 //verif:hook p2p/security/noise secureSession.encrypt
 //verif:hook p2p/security/noise secureSession.readNextInsecureMsgLen
 //verif:hook p2p/security/noise secureSession.readNextMsgInsecure
-//verif:obligation C02.a Noise secureSession.Read, one step at full scale: from a state with no queued bytes and a wire carrying one frame of any length 0..65535 built from the ghost plaintext stream, for any read buffer of 0..200000 bytes: on success exactly min(len(buf), chunk) bytes are delivered, equal to the plaintext at that position (symbolic witness index), the remainder is queued intact, exactly one frame is consumed; a frame that fails authentication (or is shorter than a tag) yields an error and no bytes; from a state with a queued remainder (any length, any seek) a read of any size (including 0) delivers the next bytes in order, never skips or repeats, never touches the wire, and releases the queue exactly when it is exhausted
+//verif:obligation C02.a Noise secureSession.Read, one step at full scale: from a state with no queued bytes and a wire carrying one frame of any length 0..65535 built from the ghost plaintext stream, for any read buffer of 0..200000 bytes: on success exactly min(len(buf), chunk) bytes are delivered, equal to the plaintext at that position (symbolic witness index), the remainder is queued intact, exactly one frame is consumed; a frame that fails authentication (or is shorter than a tag) yields an error and no bytes; from a state with a queued remainder (any length, any seek) a read of any size (including 0) delivers the next bytes in order, never skips or repeats, never touches the wire, and releases the queue exactly when it is exhausted; a Read that fails after the length prefix (frame body unreadable: deadline, cut stream) returns no bytes and leaves nothing queued
 //verif:obligation C02.b Noise secureSession.Write: for every payload length 0..3*65519+1 the frames written carry a 2-byte big-endian prefix equal to chunk+16, every chunk is <= 65519 bytes, the concatenated chunk bodies equal the payload (witness index), the returned count is the payload length; when the underlying write fails at frame k the returned count is the number of payload bytes of the frames written before it
 //verif:bound frame length 0..65535, read buffer 0..200000 bytes, queued remainder up to 65519 bytes, payload up to 196558 bytes (<= 4 frames; unwinding checked), all byte contents symbolic (functional arrays, symbolic witness index)
 //verif:stub idealised AEAD through hooks on the session's own encrypt/decrypt: ciphertext = plaintext || 16-byte tag, decrypt fails iff the frame is not authentic (symbolic) or shorter than a tag; the insecure reader is all-or-error (io.ReadFull contract); go-buffer-pool: Get returns arbitrary bytes, Put havocs the buffer (any later read of a returned buffer is unconstrained)
@@ -22,6 +22,7 @@ var (
 	vC02wire     []byte // the insecure wire
 	vC02cur      int    // read cursor
 	vC02readFail bool
+	vC02bodyFail bool // the length prefix arrives, the frame body does not
 	vC02auth     bool // is the next frame authentic?
 	vC02wireOps  int
 )
@@ -38,7 +39,7 @@ func vC02readLen(s *secureSession) (int, error) {
 
 func vC02readMsg(s *secureSession, buf []byte) error {
 	vC02wireOps++
-	if vC02readFail {
+	if vC02readFail || vC02bodyFail {
 		return io.ErrUnexpectedEOF
 	}
 	n := copy(buf, vC02wire[vC02cur:vC02cur+len(buf)])
@@ -92,17 +93,20 @@ func VerifC02aReadFresh() {
 	}
 	vC02auth = vBool()
 	vC02readFail = false
+	vC02bodyFail = vBool() // the frame body cannot be read (deadline, cut stream)
+	defer func() { vC02bodyFail = false }()
 	s := &secureSession{}
 	buf := vBytes(vRange(0, 200000))
 	n, err := s.Read(buf)
 	j := vRange(0, 70000) // witness index
 	if err != nil {
 		vCover("error")
-		vAssert(!vC02auth || ell < 16, "error-only-if-tampered-or-truncated")
+		vAssert(!vC02auth || ell < 16 || vC02bodyFail, "error-only-if-tampered-or-truncated")
 		vAssert(n == 0, "no-bytes-on-error")
+		vAssert(s.qbuf == nil, "a failed read leaves nothing queued: a later Read cannot deliver bytes that never authenticated")
 		return
 	}
-	vAssert(vC02auth && ell >= 16, "tampered-or-truncated-frame-rejected")
+	vAssert(vC02auth && ell >= 16 && !vC02bodyFail, "tampered-or-truncated-frame-rejected")
 	vAssert(n <= len(buf) && n <= k, "n-bounded")
 	if j < n {
 		vAssert(buf[j] == P[c+j], "bytes-delivered-in-order-unmodified")
